@@ -1,7 +1,6 @@
 import Cctp.Model.Bytes
 import Cctp.Model.Ext
-import Cctp.Gen.Constants
-import Cctp.Gen.Keys
+import Cctp.Model.Consts
 /-
   types/keys.go: full store keys (prefix-store prefix ‖ item key).
 -/
